@@ -193,14 +193,54 @@ pub mod dispatch {
 use super::*;
 
 /// concrete construction: detailed layer e=0.2, lambda=0.4 (R=0.5) + resistance layer R=1.25 -> R = 1.75, thickness 0.25
+/// (absence of an item is modelled by giving it an id nobody refers to: a conditional push would make the
+/// vector length symbolic, which bit-blasting does not survive)
 fn cons(m: &mut Model, with_material: bool, lam: f32) {
-    if with_material {
-        m.cons.materials.push(Material { id: uid(1), name: String::new(), properties: MatProps::Detailed { conductivity: lam, density: 1000.0, specific_heat: 1000.0, vapour_diff: None } });
-    }
+    m.cons.materials.push(Material { id: if with_material { uid(1) } else { uid(91) }, name: String::new(), properties: MatProps::Detailed { conductivity: lam, density: 1000.0, specific_heat: 1000.0, vapour_diff: None } });
     m.cons.materials.push(Material { id: uid(2), name: String::new(), properties: MatProps::Resistance { resistance: 1.25, vapour_diff: None } });
     m.cons.wallcons.push(WallCons { id: uid(3), name: String::new(), layers: vec![Layer { material: uid(1), e: 0.2 }, Layer { material: uid(2), e: 0.05 }], absorptance: 0.6 });
 }
 const R: f32 = (0.0 + 0.2 / 0.4) + 1.25;
+
+fn ground_case<S: Src>(s: &mut S, t: f32, cls: Tilt, has_space: bool, has_slab: bool) {
+    let mut m = Model::default();
+    cons(&mut m, true, 0.4);
+    let z = s.gi(-3, 1);
+    m.spaces.push(space(if has_space { 9 } else { 99 }, SpaceType::CONDITIONED, true, 3.0, z, None));
+    m.meta.rn_perim_insulation = 1.5;
+    m.meta.d_perim_insulation = 0.5;
+    m.walls.push(wall(10, BoundaryType::GROUND, 3, 9, None, t, rect(4.0, 3.0)));
+    m.walls.push(wall(11, BoundaryType::GROUND, 3, if has_slab { 9 } else { 98 }, None, 180.0, rect(4.0, 5.0)));
+    m.walls.push(wall(12, BoundaryType::EXTERIOR, 3, 9, None, 90.0, rect(5.0, 3.0)));
+    let w = &m.walls[0];
+    let got = w.u_value(&m);
+    let slab_exists = has_slab || cls == Tilt::BOTTOM;
+    cover!(z < 0.0, "below ground level");
+    cover!(z >= 0.0, "at or above ground level");
+    if !has_space || !slab_exists {
+        assert!(got.is_none(), "C06:ground element without space or without any ground slab in its space has no U-value");
+    } else {
+        let sp = &m.spaces[0];
+        let u_w = w.u_value_exterior(Some(R)).unwrap();
+        let depth = if z < 0.0 { -z } else { 0.0 };
+        let want = match cls {
+            Tilt::TOP => u_w,
+            Tilt::BOTTOM => {
+                let d_t = sp.verif_slab_d_t(&m.walls, &m.cons).unwrap();
+                let psi = sp.verif_slab_psi_gnd_ext(d_t, &m);
+                let b = sp.slab_char_dim(&m.walls, &m.spaces).unwrap_or_default();
+                w.verif_u_value_gnd_slab(depth, d_t, b, psi)
+            }
+            Tilt::SIDE => {
+                let d_t = sp.verif_slab_d_t(&m.walls, &m.cons).unwrap();
+                let hn = sp.height_net(&m.walls, &m.cons);
+                w.verif_u_value_gnd_wall(depth, u_w, d_t, hn)
+            }
+        };
+        assert!(got == Some(want), "C06:ground contact: buried roof = air value; slab and basement-wall formulas with burial depth max(-z,0), d_t, B', psi, net height");
+    }
+    std::mem::forget(m);
+}
 
 fn tilt3<S: Src>(s: &mut S) -> (f32, Tilt) {
     match s.below(3) { 0 => (0.0, Tilt::TOP), 1 => (90.0, Tilt::SIDE), _ => (180.0, Tilt::BOTTOM) }
@@ -294,8 +334,8 @@ harnesses! {
         m.cons.glasses.push(Glass { id: uid(31), name: String::new(), u_value: 2.0, g_gln: 0.5 });
         m.cons.frames.push(Frame { id: uid(32), name: String::new(), u_value: 4.0, absorptivity: 0.5 });
         let wincons_ok = s.bool();
-        if wincons_ok {
-            m.cons.wincons.push(WinCons { id: uid(33), name: String::new(), glass: uid(31), frame: uid(32), f_f: 0.25, delta_u: 0.0, g_glshwi: None, c_100: 27.0 });
+        {
+            m.cons.wincons.push(WinCons { id: if wincons_ok { uid(33) } else { uid(93) }, name: String::new(), glass: uid(31), frame: uid(32), f_f: 0.25, delta_u: 0.0, g_glshwi: None, c_100: 27.0 });
         }
         m.spaces.push(space(2, SpaceType::UNCONDITIONED, true, 2.5, 0.0, None));
         let b1 = any_bounds(s);
@@ -304,8 +344,8 @@ harnesses! {
         m.walls.push(wall(14, b1, if has_cons { 3 } else { 4 }, if own { 2 } else { 1 }, if own { None } else { Some(uid(2)) }, 90.0, rect(3.0, 2.0)));
         m.walls.push(wall(15, BoundaryType::EXTERIOR, 3, 2, None, 0.0, rect(3.0, 5.0)));
         let has_win = s.bool();
-        if has_win {
-            m.windows.push(Window { id: uid(40), name: String::new(), cons: uid(33), wall: uid(14), geometry: WinGeom { position: None, height: 1.0, width: 1.5, setback: 0.0 } });
+        {
+            m.windows.push(Window { id: uid(40), name: String::new(), cons: uid(33), wall: if has_win { uid(14) } else { uid(94) }, geometry: WinGeom { position: None, height: 1.0, width: 1.5, setback: 0.0 } });
         }
         let sp = &m.spaces[0];
         let got = sp.verif_ua_of_external_and_ground_surfaces(&m);
@@ -327,51 +367,32 @@ harnesses! {
         std::mem::forget(m);
     }
 
-    /// ground contact: which 13370 kernel, with which burial depth, d_t, B', psi and height
+    /// ground contact, buried roof / slab / basement wall (one harness per tilt class keeps symbolic execution small)
     #[kani::unwind(6)]
     #[kani::stub(alloc::fmt::format, crate::stubs::fmt_stub)]
     #[kani::stub(f32::round, crate::stubs::round_stub)]
     #[kani::stub(f32::ln, crate::stubs::ln_stub)]
-    fn u_dispatch_ground(s) {
-        let mut m = Model::default();
-        cons(&mut m, true, 0.4);
-        let z = s.gi(-3, 1);
-        let has_space = s.bool();
-        let has_slab = s.bool();
-        if has_space {
-            m.spaces.push(space(9, SpaceType::CONDITIONED, true, 3.0, z, None));
-        }
-        m.meta.rn_perim_insulation = 1.5;
-        m.meta.d_perim_insulation = 0.5;
-        let (t, cls) = tilt3(s);
-        m.walls.push(wall(10, BoundaryType::GROUND, 3, 9, None, t, rect(4.0, 3.0)));
-        if has_slab {
-            m.walls.push(wall(11, BoundaryType::GROUND, 3, 9, None, 180.0, rect(4.0, 5.0)));
-        }
-        m.walls.push(wall(12, BoundaryType::EXTERIOR, 3, 9, None, 90.0, rect(5.0, 3.0)));
-        let w = &m.walls[0];
-        let got = w.u_value(&m);
-        let slab_exists = has_slab || cls == Tilt::BOTTOM;
-        cover!(has_space && slab_exists && cls == Tilt::SIDE && z < 0.0, "buried basement wall");
-        cover!(has_space && cls == Tilt::BOTTOM && z == 0.0, "slab at ground level");
-        if !has_space || !slab_exists {
-            assert!(got.is_none(), "C06:ground element without space or without any ground slab in its space has no U-value");
-        } else {
-            let sp = &m.spaces[0];
-            let u_w = w.u_value_exterior(Some(R)).unwrap();
-            let d_t = sp.verif_slab_d_t(&m.walls, &m.cons).unwrap();
-            let psi = sp.verif_slab_psi_gnd_ext(d_t, &m);
-            let b = sp.slab_char_dim(&m.walls, &m.spaces).unwrap_or_default();
-            let hn = sp.height_net(&m.walls, &m.cons);
-            let depth = if z < 0.0 { -z } else { 0.0 };
-            let want = match cls {
-                Tilt::TOP => u_w,
-                Tilt::BOTTOM => w.verif_u_value_gnd_slab(depth, d_t, b, psi),
-                Tilt::SIDE => w.verif_u_value_gnd_wall(depth, u_w, d_t, hn),
-            };
-            assert!(got == Some(want), "C06:ground contact: buried roof = air value; slab and basement-wall formulas with burial depth max(-z,0), d_t, B', psi, net height");
-        }
-        std::mem::forget(m);
+    fn u_ground_top(s) { ground_case(s, 0.0, Tilt::TOP, true, true) }
+
+    #[kani::unwind(6)]
+    #[kani::stub(alloc::fmt::format, crate::stubs::fmt_stub)]
+    #[kani::stub(f32::round, crate::stubs::round_stub)]
+    #[kani::stub(f32::ln, crate::stubs::ln_stub)]
+    fn u_ground_slab(s) { ground_case(s, 180.0, Tilt::BOTTOM, true, true) }
+
+    #[kani::unwind(6)]
+    #[kani::stub(alloc::fmt::format, crate::stubs::fmt_stub)]
+    #[kani::stub(f32::round, crate::stubs::round_stub)]
+    #[kani::stub(f32::ln, crate::stubs::ln_stub)]
+    fn u_ground_wall(s) { ground_case(s, 90.0, Tilt::SIDE, true, true) }
+
+    /// ground element whose space is missing, or whose space has no ground slab: no U-value
+    #[kani::unwind(6)]
+    #[kani::stub(alloc::fmt::format, crate::stubs::fmt_stub)]
+    #[kani::stub(f32::round, crate::stubs::round_stub)]
+    #[kani::stub(f32::ln, crate::stubs::ln_stub)]
+    fn u_ground_missing(s) {
+        if s.bool() { ground_case(s, 90.0, Tilt::SIDE, false, true) } else { ground_case(s, 90.0, Tilt::SIDE, true, false) }
     }
 
     /// characteristic dimension B' = A / (P/2) with the exposed perimeter share
